@@ -26,6 +26,14 @@ pub fn cut(rng: &mut Rng, w: &[u8]) -> Vec<Vec<u8>> {
 
 fn chunks_str(cs: &[Vec<u8>]) -> String { cs.iter().map(|c| hex_compact(c)).collect::<Vec<_>>().join(" ") }
 
+/// the same with pauses (`~ms`, virtual time) between some of the chunks, in a fifth of the fragmented cases
+fn chunks_str_paused(rng: &mut Rng, cs: &[Vec<u8>]) -> String {
+    if cs.len() < 2 || !rng.chance(1, 5) { return chunks_str(cs); }
+    let mut toks = vec![];
+    for (i, c) in cs.iter().enumerate() { if i > 0 && rng.chance(1, 2) { toks.push(format!("~{}", rng.pick(&[1u64, 900, 2100, 11000, 31000, 61000]))); } toks.push(hex_compact(c)); }
+    toks.join(" ")
+}
+
 fn gen_domain(rng: &mut Rng) -> Vec<u8> {
     let len = *rng.pick(&[1usize, 2, 3, 9, 63, 64, 254, 255]);
     match rng.below(6) {
@@ -89,6 +97,30 @@ fn new_stream(chunks: &[Vec<u8>], open: bool) -> (Arc<Stream>, Option<mpsc::Unbo
     (Arc::new(stream), if open { Some(tx) } else { None })
 }
 
+/// chunk tokens with pauses: `~ms` between two chunks = the rest arrives ms (virtual) later.  Returns the chunks
+/// and, for each pause, (number of chunks before it, ms).
+fn split_pauses(toks: &[&str]) -> Option<(Vec<Vec<u8>>, Vec<(usize, u64)>)> {
+    let mut cs = vec![];
+    let mut ps = vec![];
+    for t in toks { if let Some(ms) = t.strip_prefix('~') { ps.push((cs.len(), ms.parse().ok()?)); } else { cs.push(unhex(t)?); } }
+    Some((cs, ps))
+}
+
+/// run `fut` (a decoder reading from the stream whose sender is `tx`) while the chunks arrive with the given pauses
+async fn feed_paused<T>(fut: impl std::future::Future<Output = T>, tx: mpsc::UnboundedSender<Bytes>, chunks: &[Vec<u8>], pauses: &[(usize, u64)], keep_open: bool) -> Option<T> {
+    tokio::pin!(fut);
+    let mut done = None;
+    for i in 0..=chunks.len() {
+        let ms: u64 = pauses.iter().filter(|(at, _)| *at == i).map(|x| x.1).sum();
+        if ms > 0 && done.is_none() {
+            tokio::select! { r = &mut fut => { done = Some(r); } _ = tokio::time::sleep(std::time::Duration::from_millis(ms)) => {} }
+        }
+        if i < chunks.len() { let _ = tx.send(Bytes::from(chunks[i].clone())); }
+    }
+    let _keep = if keep_open { Some(tx) } else { drop(tx); None };
+    match done { Some(r) => Some(r), None => tokio::time::timeout(std::time::Duration::from_millis(1), &mut fut).await.ok() }
+}
+
 fn canon_ip(s: &str) -> Option<Vec<u8>> {
     match s.parse::<IpAddr>().ok()? { IpAddr::V4(a) => Some(a.octets().to_vec()), IpAddr::V6(a) => Some(a.octets().to_vec()) }
 }
@@ -129,6 +161,8 @@ impl Group for DestGroup {
         // every cut position of a short domain destination
         let w = { let mut w = enc_dest(3, b"a.b", 443); w.extend_from_slice(b"TAIL"); w };
         for k in 0..=w.len() { v.push(Case { lines: vec![format!("dest dec 1 {} {}", hex(&w[..k]), hex(&w[k..]))] }); }
+        // ... and with a pause at every cut
+        for k in 1..w.len() { v.push(Case { lines: vec![format!("dest dec 1 {} ~2500 {}", hex(&w[..k]), hex(&w[k..]))] }); }
         // regression witness of the cache defect (DESIGN §6 D6): same host, other port
         v.push(Case { lines: vec!["dns clear".into(), format!("dns seed {} 7f000001:80", hex(b"h.test")), format!("dns resolve {} 443", hex(b"h.test")), "dns rlocal 80".into(), "dns rlocal 443".into()] });
         // every special IPv4 / IPv6 form through the real client encoder and the real server decoder
@@ -149,7 +183,7 @@ impl Group for DestGroup {
             let mut w = enc_dest(kind, &addr, port);
             match rng.below(8) { 0 => { let n = rng.below(w.len() as u64) as usize; w.truncate(n); } 1 => { w[0] = rng.next() as u8; } 2 => { if kind == 3 { w[1] = 0; } } 3 => { if kind == 3 && w.len() > 4 { w[3] = 0xff; } } _ => {} }
             if rng.chance(1, 2) { let n = rng.below(10) as usize; w.extend(rng.bytes(n)); }
-            return Case { lines: vec![format!("dest dec {} {}", open, chunks_str(&cut(rng, &w)))] };
+            return Case { lines: vec![format!("dest dec {} {}", open, { let cs = cut(rng, &w); chunks_str_paused(rng, &cs) })] };
         }
         if k < 42 {
             let (kind, addr) = match rng.below(4) { 0 | 1 => (1u8, gen_v4(rng)), 2 => (4, gen_v6(rng)), _ => (3, b"127.0.0.1".to_vec()) };
@@ -157,7 +191,7 @@ impl Group for DestGroup {
             w.extend(enc_dest(kind, &addr, port));
             if rng.chance(1, 6) { let n = rng.below(w.len() as u64) as usize; w.truncate(n); }
             if rng.chance(1, 2) { let n = rng.below(10) as usize; w.extend(rng.bytes(n)); }
-            return Case { lines: vec![format!("dest udpreq {} {}", open, chunks_str(&cut(rng, &w)))] };
+            return Case { lines: vec![format!("dest udpreq {} {}", open, { let cs = cut(rng, &w); chunks_str_paused(rng, &cs) })] };
         }
         if k < 54 {
             let (kind, addr) = match rng.below(4) { 0 => (1u8, gen_v4(rng)), 1 => (4, gen_v6(rng)), _ => (3, if rng.chance(1, 5) { vec![b'x'; *rng.pick(&[255usize, 256, 257, 400])] } else { gen_domain(rng) }) };
@@ -253,13 +287,15 @@ async fn exec_line(toks: &[&str], out: &mut Outcome) -> String {
     let t1 = std::time::Duration::from_millis(1);
     match toks {
         ["dest", "dec", open, chunks @ ..] => {
-            let Some(cs) = chunks.iter().map(|c| unhex(c)).collect::<Option<Vec<_>>>() else { return "bad-op".into() };
+            let Some((cs, pauses)) = split_pauses(chunks) else { return "bad-op".into() };
             let all = cs.concat();
-            let (stream, _keep) = new_stream(&cs, *open == "1");
-            match tokio::time::timeout(t1, anytls_rs::server::handler::verif_handler::read_socks_addr(stream.clone())).await {
-                Err(_) => "block".into(),
-                Ok(Err(_)) => "err".into(),
-                Ok(Ok((addr, port))) => {
+            let (stream, keep) = if pauses.is_empty() { new_stream(&cs, *open == "1") } else { new_stream(&[], true) };
+            let res = if pauses.is_empty() { let r = tokio::time::timeout(t1, anytls_rs::server::handler::verif_handler::read_socks_addr(stream.clone())).await.ok(); drop(keep); r }
+                else { feed_paused(anytls_rs::server::handler::verif_handler::read_socks_addr(stream.clone()), keep.unwrap(), &cs, &pauses, *open == "1").await };
+            match res {
+                None => "block".into(),
+                Some(Err(_)) => "err".into(),
+                Some(Ok((addr, port))) => {
                     let atyp = all.first().copied().unwrap_or(0);
                     let shown = if atyp == 3 { format!("name {}", hex_compact(addr.as_bytes())) } else { format!("ip {}", canon_ip(&addr).map(|b| hex(&b)).unwrap_or("?".into())) };
                     // O (C07): what was decoded is what the bytes say (reference decoding)
@@ -272,15 +308,16 @@ async fn exec_line(toks: &[&str], out: &mut Outcome) -> String {
             }
         }
         ["dest", "udpreq", open, chunks @ ..] => {
-            let Some(cs) = chunks.iter().map(|c| unhex(c)).collect::<Option<Vec<_>>>() else { return "bad-op".into() };
+            let Some((cs, pauses)) = split_pauses(chunks) else { return "bad-op".into() };
             let all = cs.concat();
-            let (stream, _keep) = new_stream(&cs, *open == "1");
+            let (stream, keep) = if pauses.is_empty() { new_stream(&cs, *open == "1") } else { new_stream(&[], true) };
             let reader = stream.reader().clone();
             let fut = async move { let mut g = reader.lock().await; anytls_rs::server::udp_proxy::verif_udp_server::read_initial_request(&mut g).await };
-            match tokio::time::timeout(t1, fut).await {
-                Err(_) => "block".into(),
-                Ok(Err(_)) => "err".into(),
-                Ok(Ok(sa)) => {
+            let res = if pauses.is_empty() { let r = tokio::time::timeout(t1, fut).await.ok(); drop(keep); r } else { feed_paused(fut, keep.unwrap(), &cs, &pauses, *open == "1").await };
+            match res {
+                None => "block".into(),
+                Some(Err(_)) => "err".into(),
+                Some(Ok(sa)) => {
                     let atyp = all.get(1).copied().unwrap_or(0);
                     let ipb = match sa.ip() { IpAddr::V4(a) => a.octets().to_vec(), IpAddr::V6(a) => a.octets().to_vec() };
                     let refd = ref_dest(&all[1..]);
